@@ -417,6 +417,13 @@ def run(R):
                     R.violation(f'bytes-differ-{"string" if cname == "liteServer.error" else "bytes"}-length-sweep', f'{cname} with a {n}-byte {field}: serialised bytes differ from the TL encoding '
                                 f'({mon.srepr(got, 40)})', {'constructor': cname, 'length': n})
                     continue
+                # the same byte string held in a bytearray / memoryview is the same value
+                if cname == 'adnl.message.custom' and n % 7 == 0:
+                    for fname, conv in (('bytearray', bytearray), ('memoryview', memoryview)):
+                        st2, got2 = mon.call(lib_raw.serialize, lib_raw.get_by_name(cname), dict(v, **{field: conv(v[field])}))
+                        R.check(st2 == 'ok' and got2 == want, f'bytes-differ-bytes-given-as-{fname}', f'{cname} with its {n}-byte {field} given as a {fname}: serialised bytes differ from the TL encoding '
+                                f'({mon.srepr(got2, 40)})', {'constructor': cname, 'length': n, 'form': fname})
+                        R.count('bytes_like_field_values')
                 st, res = mon.call(lib_raw.deserialize, want)
                 ok = st == 'ok' and isinstance(res, tuple) and res[1] == len(want) and (res[0].get(field) == (mk(n) if isinstance(mk(n), bytes) else mk(n).encode()) or res[0].get(field) == mk(n))
                 if cname == 'adnl.message.custom':
